@@ -14,8 +14,9 @@ PROP = {'lean': 'MpsProps.C08',
               'Mps.C08alg.doerner_refresh_preserves_sum',
               'Mps.C08alg.doerner_refreshes_preserve_sum'],
  'generated': ['Mps.Src.SrcCmpKeygen.gen_source', 'Mps.Src.SrcFrostKeygen.gen_source', 'Mps.Src.SrcDoernerKeygen.gen_source', 'Mps.AlgGen.gen_doernerKeygenShares', 'Mps.AlgGen.gen_frostRefreshStart'],
- 'suites': [{'name': 'sess-refresh', 'quick': 12, 'thorough': 200, 'shards': 8}, {'name': 'alg', 'quick': 600, 'thorough': 28000, 'shards': 8}],
- 'propfields': {'sess-refresh': ['ok'], 'alg': ['valid', 'match', 'ok']},
+ 'suites': [{'name': 'sess-refresh', 'quick': 12, 'thorough': 200, 'shards': 8}, {'name': 'alg', 'quick': 600, 'thorough': 28000, 'shards': 8},
+            {'name': 'sess-deviate', 'quick': 8, 'thorough': 200, 'shards': 8}],
+ 'propfields': {'sess-refresh': ['ok'], 'sess-deviate': ['ok'], 'alg': ['valid', 'match', 'ok']},
  'level_text': 'Proof + judged sessions: the algebra behind the property is a set of Lean theorems over an arbitrary field / module (see theorem '
                'list); histories keygen -> refresh* -> sign for FROST, FROST-Taproot, Doerner, CMP: key unchanged, consistency again, every share '
                'changed (t>0), no old/new mixture of a (t+1)-set reconstructs the key, old objects untouched, signing with refreshed material '
